@@ -16,3 +16,15 @@ let () = register "coverall" (fun args -> match args with
            String.concat " | " (go 0 rest)
        | _ -> "load-failed")
   | _ -> "usage")
+(* atomsdump <image hex> -> per string index: i:atomhex/backtrack,... joined by " | " *)
+let () = register "atomsdump" (fun args -> match args with
+  | img :: _ ->
+      (match arena_load cfg_current (unhex img) with
+       | LOk a ->
+           let cr = decode a in
+           let all = all_atoms cr in
+           String.concat " | " (List.mapi (fun i _ ->
+             Printf.sprintf "%d:%s" i (String.concat "," (List.map (fun (at, bt) -> hex at ^ "/" ^ string_of_int (int_of_n bt)) (atoms_for all (n_of_int i)))))
+             (cr_strings cr))
+       | _ -> "load-failed")
+  | _ -> "usage")
